@@ -180,6 +180,49 @@ def serve (r : Req) : Obs :=
       let d := readAll r.dflt (fuelFor r) r.caps { under := u, limit := r.limit } []
       { status := 200, ran := true, data := d.1, err := d.2 }
 
+/-! ### the default error response (`defaultErrorHandler`, `formatSize`) -/
+
+def KB : Nat := 1024
+def MB : Nat := 1024 * 1024
+def GB : Nat := 1024 * 1024 * 1024
+
+/-- `fmt.Sprintf("%.1f", float64(bytes)/float64(unit))` in tenths, for `bytes < 2^53` and `unit` a power of two:
+    the conversion and the division are exact, `%.1f` rounds the exact quotient to the nearest tenth, ties to even -/
+def roundTenths (bytes unit : Nat) : Nat :=
+  let q := bytes * 10 / unit
+  let r := bytes * 10 % unit
+  if 2 * r < unit then q else if 2 * r > unit then q + 1 else if q % 2 = 0 then q else q + 1
+
+def showTenths (t : Nat) (unitName : Bytes) : Bytes :=
+  (Nat.repr (t / 10)).toList ++ ['.'] ++ (Nat.repr (t % 10)).toList ++ unitName
+
+/-- `formatSize(bytes)`: the `switch` of bodylimit.go -/
+def formatSize (bytes : Nat) : Bytes :=
+  if bytes ≥ GB then showTenths (roundTenths bytes GB) ['G', 'B']
+  else if bytes ≥ MB then showTenths (roundTenths bytes MB) ['M', 'B']
+  else if bytes ≥ KB then showTenths (roundTenths bytes KB) ['K', 'B']
+  else (Nat.repr bytes).toList ++ ['B']
+
+/-- what a rejection looks like on the wire -/
+structure ErrResp where
+  status : Nat
+  ctype : Bytes
+  body : Bytes
+  /-- `WWW-Authenticate` (basicauth only) -/
+  www : Option Bytes := none
+  deriving DecidableEq, Repr
+
+def jsonCT : Bytes := "application/json; charset=utf-8".toList
+
+/-- `defaultErrorHandler(c, limit)`: `c.Status(413)`, then `c.JSON(413, {"error": …, "max_size": formatSize(limit)})`
+    (encoding/json writes the keys of a map sorted and ends the document with a newline); `ctype` is the Content-Type
+    of the response as a recorder sees it -/
+def errorResponse (limit : Nat) : ErrResp :=
+  -- as observed: `c.Status(413)` commits the header block BEFORE `c.JSON` sets Content-Type, so the JSON document goes
+  -- out without a Content-Type of its own (a real server then sniffs text/plain); outside the statement of C17
+  { status := 413, ctype := [],
+    body := "{\"error\":\"request entity too large\",\"max_size\":\"".toList ++ formatSize limit ++ "\"}\n".toList }
+
 end Body
 
 /-! ## basicauth -/
@@ -242,6 +285,13 @@ def serve (r : Req) : Obs :=
       | none => reject r
       | some (u, p) =>
         if authenticated r u p then { ran := true, status := 200, www := none, user := u } else reject r
+
+/-- `defaultUnauthorizedHandler` behind the `WWW-Authenticate` header: `c.JSON(401, {"error": "Unauthorized", "code":
+    "UNAUTHORIZED"})` (keys sorted by encoding/json) -/
+def errorResponse (realm : Bytes) : Body.ErrResp :=
+  { status := 401, ctype := Body.jsonCT,
+    body := "{\"code\":\"UNAUTHORIZED\",\"error\":\"Unauthorized\"}\n".toList,
+    www := some ("Basic realm=\"".toList ++ realm ++ "\"".toList) }
 
 /-- the whole middleware: `cfg.skipPaths[c.Request.URL.Path]` (exact match on the path as the request
     carries it — no cleaning, no decoding beyond what `net/url` did) exempts the request -/
